@@ -151,23 +151,38 @@ def r192(prog, chk):
 
 
 # ----------------------------------------------------------------------------- R19.3
+def _writes_in(loop: ast.For):
+    for n in ast.walk(loop):
+        if isinstance(n, (ast.Assign, ast.AugAssign)):
+            yield n
+        elif isinstance(n, ast.Expr) and isinstance(n.value, ast.Call) and A.callee_name(n.value) in ("append", "add", "insert", "extend"):
+            yield n
+
+
 def _both_directions(prog, f: FuncInfo, loop: ast.For, subject_pred, old: str, new: str) -> Tuple[bool, str]:
-    """Inside loop: if X == old: X/target <- new ; elif X == new: <- old  (for the subject expression)."""
-    ifs = [n for n in ast.walk(loop) if isinstance(n, ast.If)]
-    found = 0
-    for i in ifs:
-        t = i.test
-        if not (isinstance(t, ast.Compare) and isinstance(t.ops[0], ast.Eq) and T(t.comparators[0]) == old and subject_pred(t.left)):
-            continue
-        el = i.orelse[0] if len(i.orelse) == 1 and isinstance(i.orelse[0], ast.If) else None
-        if el is None or not (isinstance(el.test, ast.Compare) and isinstance(el.test.ops[0], ast.Eq) and T(el.test.comparators[0]) == new and T(el.test.left) == T(t.left)):
-            return False, f"`{T(t)}` has no opposite branch"
-        a = [x for x in ast.walk(ast.Module(body=i.body, type_ignores=[])) if isinstance(x, ast.Name) and x.id == new]
-        b = [x for x in ast.walk(ast.Module(body=el.body, type_ignores=[])) if isinstance(x, ast.Name) and x.id == old]
-        if not a or not b:
-            return False, f"branches of `{T(t)}` do not exchange the two names"
-        found += 1
-    return found > 0, f"{found} two-way remap(s)"
+    """Inside loop: some write that holds under `X == old` uses `new`, and some write that holds under
+    `X == new` uses `old` (X satisfying subject_pred); decided from the branch facts, not the if/elif layout."""
+    fwd = bwd = False
+    for w in _writes_in(loop):
+        fs = facts(prog, f, w)
+        names = {x.id for x in ast.walk(w.value if not isinstance(w, ast.Expr) else w.value) if isinstance(x, ast.Name)}
+        for o, l, r in fs:
+            if o != "eq":
+                continue
+            for subj, const in ((l, r), (r, l)):
+                if not subject_pred(subj):
+                    continue
+                if const == old and new in names:
+                    fwd = True
+                if const == new and old in names:
+                    bwd = True
+    if fwd and bwd:
+        return True, "two-way remap"
+    return False, ("no write under `== old` uses the new name" if not fwd else "no write under `== new` puts the old name back")
+
+
+def has_ne(fs, a: str, b: str) -> bool:
+    return any(o == "ne" and {l, r} == {a, b} for o, l, r in fs)
 
 
 def r193(prog, chk):
@@ -227,13 +242,13 @@ def r193(prog, chk):
     loops = [n for n in f.node.body if isinstance(n, ast.For)]
     need(len(loops) == 3, f"cannot interpret {f.short}: expected the component, kerning and group loops")
     comp, kern, grp = loops
-    ok, why = _both_directions(prog, f, comp, lambda e: isinstance(e, ast.Attribute) and e.attr == "baseGlyph", old, new)
+    ok, why = _both_directions(prog, f, comp, lambda t_: t_.endswith(".baseGlyph"), old, new)
     okc = T(comp.iter) == font and any(isinstance(n, ast.For) and T(n.iter).endswith(".components") for n in ast.walk(comp))
     chk.ob("R19.3", f"{f.short}|component references of every glyph are remapped both ways", ok and okc, where(f, comp), detail=why,
            message=f"{f.short}: component references are remapped one way only ({why}): composites of the swapped glyphs point at the wrong outline")
     kv = A.target_names(kern.target)
-    ok1, why1 = _both_directions(prog, f, kern, lambda e: isinstance(e, ast.Name) and e.id == kv[0], old, new)
-    ok2, why2 = _both_directions(prog, f, kern, lambda e: isinstance(e, ast.Name) and e.id == kv[1], old, new)
+    ok1, why1 = _both_directions(prog, f, kern, lambda t_: t_ == kv[0], old, new)
+    ok2, why2 = _both_directions(prog, f, kern, lambda t_: t_ == kv[1], old, new)
     after = [s_ for s_ in f.node.body[f.node.body.index(kern) + 1:] if not isinstance(s_, ast.Pass)][:2]
     okr = [T(s.value.func) for s in after if isinstance(s, ast.Expr) and isinstance(s.value, ast.Call)] == [f"{font}.kerning.clear", f"{font}.kerning.update"]
     st = [s for s in ast.walk(kern) if isinstance(s, ast.Assign) and isinstance(s.targets[0], ast.Subscript)]
@@ -244,10 +259,13 @@ def r193(prog, chk):
     ok = len(gv) == 1
     if ok:
         nv = A.target_names(gv[0].target)[0]
-        ok, why = _both_directions(prog, f, gv[0], lambda e: isinstance(e, ast.Name) and e.id == nv, old, new)
-        ifs = [n for n in gv[0].body if isinstance(n, ast.If)]
-        els = ifs[0].orelse[0].orelse if ifs and ifs[0].orelse and isinstance(ifs[0].orelse[0], ast.If) else []
-        ok = ok and any(isinstance(x, ast.Call) and A.callee_name(x) == "append" and T(x.args[0]) == nv for s in els for x in ast.walk(s))
+        ok, why = _both_directions(prog, f, gv[0], lambda t_: t_ == nv, old, new)
+        keep = False
+        for w in _writes_in(gv[0]):
+            if isinstance(w, ast.Expr) and A.callee_name(w.value) == "append" and T(w.value.args[0]) == nv:
+                fs = facts(prog, f, w)
+                keep = keep or (has_ne(fs, nv, old) and has_ne(fs, nv, new))
+        ok = ok and keep
         st = [s for s in grp.body if isinstance(s, ast.Assign) and isinstance(s.targets[0], ast.Subscript) and T(s.targets[0].value) == f"{font}.groups"]
         ok = ok and len(st) == 1
     chk.ob("R19.3", f"{f.short}|group members are remapped both ways, other members kept in place", ok, where(f, grp), detail="append(new) / append(old) / append(name)",
@@ -262,8 +280,8 @@ def r193(prog, chk):
 def _guards_raise(prog, fi, c) -> bool:
     """c is the test of an `if <test>: raise ...` input check"""
     for n in A.body_nodes(fi.node):
-        if isinstance(n, ast.If) and n.test is c.test and not n.orelse and n.body and isinstance(n.body[-1], ast.Raise):
-            return c.polarity is False
+        if isinstance(n, ast.If) and n.test is (c.raw if c.raw is not None else c.test) and not n.orelse and n.body and isinstance(n.body[-1], ast.Raise):
+            return (c.raw_polarity if c.raw is not None else c.polarity) is False
     return False
 
 
